@@ -201,7 +201,9 @@ func argMatches(c hx.Col, r int, v driver.Value) bool {
 }
 
 var simpleNames = []string{"a", "b", "c", "col1", "Col2", "x_y", "id", "value", "pct%", "%d", "100%s"}
-var quotedNames = []string{"a", "b c", "Col 2", "ä", "x,y", "a(b)", "sel;ect", "1$", "?", "tab\tname", "e", "100%", "a %d b", "%s", "%!v", "main.t", "v1.2 data", "a.b.c", "."}
+var quotedNames = []string{"a", "b c", "Col 2", "ä", "x,y", "a(b)", "sel;ect", "1$", "?", "tab\tname", "e", "100%", "a %d b", "%s", "%!v", "main.t", "v1.2 data", "a.b.c", ".",
+	// blanks at the ends belong to the name
+	" padded ", "trail ", " lead", "\ttab", "nl\n"}
 
 func TestC19(t *testing.T) {
 	rapid.Check(t, func(t *rapid.T) {
